@@ -91,7 +91,7 @@ Definition run_cors (c impl : sexp) : sexp :=
     | [_; root; m; full] =>
         {| t_router := t_router t;
            t_services := map (fun w =>
-               if str_eqb (s_root w) (sx_str root)
+               if str_eqb (ws_path (s_root w)) (ws_path (sx_str root))
                then {| s_root := s_root w;
                        s_routes := filter (fun r => negb (str_eqb (r_method r) (sx_str m) && str_eqb (route_path w r) (sx_str full)))
                                           (s_routes w) |}
@@ -159,6 +159,17 @@ Fixpoint find_route (id : Z) (wss : list service) : option (service * route) :=
 Definition canon_bindings (b : list (str * str)) : sexp :=
   of_params (fold_left (fun m kv => pset (fst kv) (snd kv) m) b []).
 
+Definition obs_core (x : sexp) : sexp := Lst (firstn 5 (sx_list x)).
+
+(* what ServeHTTP answers in a registration state (Registry model), in the shape of the route domain's observations *)
+Definition serve_obs_of (t : table) (a : reg_answer) : sexp :=
+  match a with
+  | GRouted x => routed_obs t x
+  | GRedirect loc => Lst [I 1; I 301; Lst []; Lst []; Lst []; A loc; I 1]
+  | GMux404 => Lst [I 1; I 404; Lst []; Lst []; Lst []; A []; I 1]
+  | GPlain _ => Lst [I 1; I 200; Lst []; Lst []; Lst []; A []; I 1]
+  end.
+
 Definition run_route (c impl : sexp) : sexp :=
   let O := sx_oracles (sx_nth 0 c) in
   let t := sx_table (sx_nth 1 c) in
@@ -215,8 +226,27 @@ Definition run_route (c impl : sexp) : sexp :=
              | RError E404 => "404" | RError (E405 _) => "405" | RError E415 => "415" | RError E406 => "406"
              | RPanic => "panic"
              end%string in
+  (* a ninth field of the observation, when present: the answer of ServeHTTP after the FIRST service of the table was
+     removed again (Container.Remove rebuilds the mux) - it must be the answer of the registration state reached by
+     adding all services in order and removing the first (Registry model, theorem C11) *)
+  let after_remove :=
+    match t_services t with
+    | w0 :: _ =>
+        let st := cs_run cs_init (map (fun w => RAdd (s_root w) (s_routes w)) (t_services t) ++ [RRemove (s_root w0)]) 0 in
+        match snd st with
+        | None => Some (serve_obs_of (cs_table (t_router t) (fst st)) (serve_http O (t_router t) (fst st) req))
+        | Some _ => None
+        end
+    | [] => None
+    end in
+  let v_after_remove :=
+    match sx_list impl, after_remove with
+    | [_; _; _; _; _; _; _; _; o], Some e => sexp_eqb (obs_core o) (obs_core e)
+    | _, _ => true
+    end in
   Lst [ routed_obs t x;
-        Lst [ verdict "c01_invoked_route_admits_request" v_c01;
+        Lst [ verdict "c02_outcome_after_a_service_was_removed_through_servehttp" v_after_remove;
+              verdict "c01_invoked_route_admits_request" v_c01;
               verdict "c01_selected_route_is_invoked_route" v_sel;
               verdict "c04_parameters_are_the_url_text" v_c04;
               verdict "c02_no_panic" (negb (Z.eqb i_class 2));
@@ -228,6 +258,7 @@ Definition run_route (c impl : sexp) : sexp :=
                                                      | Jsr311, Some (w, r) => jsr_tokens_agree w r && jsr_names_agree w r
                                                      | _, _ => false end);
               verdict "jsr311" (match t_router t with Jsr311 => true | Curly => false end);
+              verdict "first_service_removed_again" (Nat.eqb (List.length (sx_list impl)) 9);
               verdict "trace_logging_on" (sx_bool (sx_nth 3 c)) ] ].
 
 (* ---- domain "slash" (C14): (oracles table request), impl = (obs(p) obs(p/)) ---- *)
@@ -435,7 +466,6 @@ Definition apply_perm (t : table) (p : sexp) : table :=
         | None => []
         end) so |}.
 
-Definition obs_core (x : sexp) : sexp := Lst (firstn 5 (sx_list x)).
 
 Definition run_perm (c impl : sexp) : sexp :=
   let O := sx_oracles (sx_nth 0 c) in
@@ -601,6 +631,12 @@ Definition run_disp (c impl : sexp) : sexp :=
   let v_c10_once := forallb (fun io => implb (d_recover cfg) (Z.leb (sx_int (sx_nth 6 io)) 1)) i_seq in
   (* ... and exactly once per recovered panic, whether or not output had been written: as often as the model says *)
   let v_c10_told := forallb (fun x => sexp_eqb (sx_nth 6 (res_obs (snd (fst x)))) (sx_nth 6 (snd x))) per in
+  (* ... and what the client sees of a recovered panic is the configured recover handler's doing: status and decoded
+     body as the model computes them from the handler's script *)
+  let v_c10_answer := forallb (fun x =>
+        let mr := res_obs (snd (fst x)) in let io := snd x in
+        implb (negb (Z.eqb (sx_int (sx_nth 6 mr)) 0))
+              (sexp_eqb (sx_nth 1 mr) (sx_nth 1 io) && sexp_eqb (sx_nth 3 mr) (sx_nth 3 io))) per in
   let v_c10_ledger := Z.eqb (sx_int (sx_nth 0 led)) (sx_int (sx_nth 1 led))
                       && Z.eqb (sx_int (sx_nth 2 led)) 0 && Z.eqb (sx_int (sx_nth 3 led)) 0
                       && Z.eqb (sx_int (sx_nth 4 led)) 0 in
@@ -659,6 +695,7 @@ Definition run_disp (c impl : sexp) : sexp :=
               verdict "c10_panic_does_not_escape" v_c10_noescape;
               verdict "c10_recover_handler_at_most_once" v_c10_once;
               verdict "c10_recover_handler_told_of_every_panic" v_c10_told;
+              verdict "c10_client_sees_the_recover_handlers_answer" v_c10_answer;
               verdict "c10_compressors_released_once" v_c10_ledger;
               verdict "c13_every_acquired_compressor_released_once" v_c10_ledger;
               verdict "c10_body_complete" v_c10_decodes;
@@ -904,8 +941,15 @@ Definition run_ent (c impl : sexp) : sexp :=
       let orc := sx_nth 7 rq in
       let rows := sx_list (sx_nth 3 orc) in
       rows in
+  (* ... then reading succeeds and gives the value that was written (its rendering before writing is the sixth field
+     of the request's oracle) *)
   let v_round := forallb (fun p => let rq := fst p in let io := snd p in
-                            implb (faithful rq) (Z.eqb (sx_int (sx_nth 0 io)) 1)) (combine reqs i_seq) in
+                            implb (faithful rq)
+                                  (Z.eqb (sx_int (sx_nth 0 io)) 1
+                                   && str_eqb (sx_str (sx_nth 1 io)) (sx_str (sx_nth 5 (sx_nth 7 rq))))) (combine reqs i_seq) in
+  (* what the standard decoders refuse (the model's answer is an error) is an error for the reader too *)
+  let v_broken := forallb (fun p => implb (negb (Z.eqb (sx_int (sx_nth 0 (fst p))) 1))
+                                          (negb (Z.eqb (sx_int (sx_nth 0 (snd p))) 1))) (combine obs i_seq) in
   let v_nopanic := forallb (fun io => negb (Z.eqb (sx_int (sx_nth 0 io)) (-1))) (i_seq ++ i_fresh ++ i_conc) in
   let same l1 l2 := Nat.eqb (List.length l1) (List.length l2) && forallb (fun p => sexp_eqb (fst p) (snd p)) (combine l1 l2) in
   let v_hist := same i_seq i_fresh in
@@ -915,6 +959,7 @@ Definition run_ent (c impl : sexp) : sexp :=
               else if existsb (fun rq => negb (Z.eqb (sx_int (sx_nth 5 rq)) 0)) reqs then "compressed" else "plain")%string in
   Lst [ Lst [Lst obs; Lst obs; Lst conc; Lst [I 0; I 0; I 0; I 0; I 0]];
         Lst [ verdict "c16_round_trip" v_round;
+              verdict "c16_broken_is_an_error" v_broken;
               verdict "c16_never_panics" v_nopanic;
               verdict "c16_history_independent" v_hist;
               verdict "c16_concurrent_same" v_conc;
